@@ -148,18 +148,24 @@ def quadratic_spline(
         # The discriminant equals (bin width * height at the solution)^2 >= 0, but it is obtained by cancellation:
         # near the top of a bin whose right height sits at the floor, rounding (in float32) leaves it a hair
         # below zero, and the relative position a hair outside [0, 1], which used to give NaN.
-        discriminant = torch.clamp(b.pow(2) - 4 * a * c_, min=0)
-        alpha = (-2 * c_) / (b + torch.sqrt(discriminant))
-        alpha = torch.clamp(alpha, 0, 1)
+        discriminant = b.pow(2) - 4 * a * c_
+        positive = discriminant > 0
+        sqrt_discriminant = torch.where(
+            positive,
+            torch.sqrt(torch.where(positive, discriminant, torch.ones_like(discriminant))),
+            torch.zeros_like(discriminant),
+        )
+        alpha = (-2 * c_) / (b + sqrt_discriminant)
+        alpha = torchutils.clamp_preserve_gradients(alpha, 0, 1)
         outputs = alpha * input_bin_widths + input_bin_locations
-        outputs = torch.clamp(outputs, 0, 1)
+        outputs = torchutils.clamp_preserve_gradients(outputs, 0, 1)
         logabsdet = -torch.log(
             (alpha * (input_right_heights - input_left_heights) + input_left_heights)
         )
     else:
         alpha = (inputs - input_bin_locations) / input_bin_widths
         outputs = a * alpha.pow(2) + b * alpha + c
-        outputs = torch.clamp(outputs, 0, 1)
+        outputs = torchutils.clamp_preserve_gradients(outputs, 0, 1)
         logabsdet = torch.log(
             (alpha * (input_right_heights - input_left_heights) + input_left_heights)
         )
